@@ -53,7 +53,7 @@ func (m Math) Min(x ...interface{}) (res float64) {
 
 // Max gets the maximum value
 func (m Math) Max(x ...interface{}) (res float64) {
-	res = float64(math.SmallestNonzeroFloat64)
+	res = math.Inf(-1)
 	for _, v := range x {
 		if reflect.TypeOf(v).Kind() == reflect.Int {
 			v = float64(reflect.ValueOf(v).Int())
